@@ -103,3 +103,11 @@ Example ex_deciders_reject :
   failed_no_write_b (mkObs [] [(P "/x", [1])] [(P "/x", [1])] [] true true false []) = false /\
   inputs_safe_b (mkObs [(P "/x", [1])] [(P "/x", [2])] [(P "/x", [2])] [P "/x"] false true false []) = false.
 Proof. vm_compute. repeat split; reflexivity. Qed.
+
+(* foreign_files_untouched: the hypothesis holds for the foreign file of the
+   example history (it is never a reported output) and fails for an output *)
+Example ex_foreign :
+  forallb (fun r => negb (mem (P "/out/keep.txt") (map o_path (r_outputs r))))
+          (trace phys_id ex_opts (init ex_d0) [ex_oc1; ex_oc2; ex_oc3; ex_oc1]) = true /\
+  lookup (disk (run phys_id ex_opts (init ex_d0) [ex_oc1; ex_oc2; ex_oc3; ex_oc1])) (P "/out/keep.txt") = Some [7].
+Proof. vm_compute. split; reflexivity. Qed.
